@@ -69,4 +69,168 @@ theorem get?_append (l r : Layer V) (k : Key) :
     · simp [get?, h0]
     · simp [get?, h0]; exact ih
 
+
+/-! ## `_keys_by_block_id` -/
+
+/-- every entry of the dict `by_block_id` is keyed by its key's own block id -/
+def KbOK (kb : List (BlockId × Key)) : Prop := ∀ b k, (b, k) ∈ kb → k.bid = b
+
+theorem lookup_mem {α β : Type} [BEq α] [LawfulBEq α] {l : List (α × β)} {a : α} {b : β}
+    (h : l.lookup a = some b) : (a, b) ∈ l := by
+  induction l with
+  | nil => cases h
+  | cons p r ih =>
+    obtain ⟨k, v⟩ := p
+    simp only [List.lookup] at h
+    split at h
+    · rename_i heq
+      have : a = k := by simpa using heq
+      subst this; cases h; exact List.mem_cons_self
+    · exact List.mem_cons_of_mem _ (ih h)
+
+theorem keysByBlockId_ok {ks : List Key} {acc kb : List (BlockId × Key)}
+    (h : keysByBlockId ks acc = .ok kb) (ha : KbOK acc) : KbOK kb := by
+  induction ks generalizing acc with
+  | nil => simp [keysByBlockId] at h; subst h; exact ha
+  | cons k ks ih =>
+    simp only [keysByBlockId] at h
+    split at h
+    · apply ih h
+      intro b k' hm
+      rcases List.mem_append.mp hm with hm | hm
+      · exact ha _ _ hm
+      · simp at hm; obtain ⟨rfl, rfl⟩ := hm; rfl
+    · split at h
+      · exact ih h ha
+      · cases h
+
+theorem KbOK_nil : KbOK [] := by intro b k h; cases h
+
+theorem findLayerKey_bid {name : String} {kb : List (BlockId × Key)} {inf : Option String}
+    {dsk : Layer V} {b : BlockId} {k : Key} (hk : KbOK kb)
+    (h : findLayerKey name kb inf dsk b = .ok k) : k.bid = b := by
+  unfold findLayerKey at h
+  cases hl : kb.lookup b with
+  | none =>
+    simp only [hl] at h
+    split at h
+    · cases h; rfl
+    · split at h
+      · cases h; rfl
+      · cases h
+  | some e =>
+    simp only [hl] at h
+    split at h
+    · cases h; exact hk _ _ (lookup_mem hl)
+    · split at h
+      · cases h; rfl
+      · split at h
+        · cases h; rfl
+        · cases h
+
+/-- the lookup reads `dsk` only at keys of block `b` -/
+theorem findLayerKey_congr {name : String} {kb : List (BlockId × Key)} {inf : Option String}
+    {d d' : Layer V} {b : BlockId} (hk : KbOK kb) (hd : ∀ k : Key, k.bid = b → get? d k = get? d' k) :
+    findLayerKey name kb inf d b = findLayerKey name kb inf d' b := by
+  unfold findLayerKey
+  have h1 : has d ⟨name, b⟩ = has d' ⟨name, b⟩ := by simp [has, hd ⟨name, b⟩ rfl]
+  cases hl : kb.lookup b with
+  | none => simp only [h1]
+  | some e =>
+    have h2 : has d e = has d' e := by simp [has, hd e (hk _ _ (lookup_mem hl))]
+    simp only [h1, h2]
+
+
+/-! ## the block grid -/
+
+theorem grid_length : ∀ {nb : List Nat} {b : BlockId}, b ∈ grid nb → b.length = nb.length
+  | [], b, h => by simp [grid] at h; subst h; rfl
+  | n :: ns, b, h => by
+    simp only [grid, List.mem_flatMap, List.mem_map] at h
+    obtain ⟨i, _, bs, hbs, rfl⟩ := h
+    simp [grid_length hbs]
+
+theorem grid_nodup : ∀ nb : List Nat, (grid nb).Nodup
+  | [] => by simp [grid]
+  | n :: ns => by
+    have ih := grid_nodup ns
+    simp only [grid, List.Nodup]
+    rw [List.pairwise_flatMap]
+    constructor
+    · intro i _
+      rw [List.pairwise_map]
+      exact List.Pairwise.imp (fun h => by simpa using h) ih
+    · have : (List.range n).Nodup := List.nodup_range
+      refine List.Pairwise.imp ?_ this
+      intro i j hij x hx y hy
+      simp only [List.mem_map] at hx hy
+      obtain ⟨_, _, rfl⟩ := hx
+      obtain ⟨_, _, rfl⟩ := hy
+      intro h
+      exact hij (by simpa using (List.cons.inj h).1)
+
+
+
+/-! ## `_inferred_layer_name` -/
+
+theorem inferred_has {fg : FromGraph V} {n : String} (h : inferredLayerName fg = some n)
+    {b : BlockId} (hb : b ∈ grid fg.numblocks) : has fg.layer ⟨n, b⟩ = true := by
+  unfold inferredLayerName at h
+  simp only at h
+  split at h
+  · rename_i n' heq
+    cases h
+    have hmem : n ∈ (layerNames fg.layer fg.numblocks.length).filter
+        (fun n => sameSet (bidsOf fg.layer fg.numblocks.length n) (grid fg.numblocks)) := by
+      rw [heq]; exact List.mem_cons_self
+    have hs := (List.mem_filter.mp hmem).2
+    simp only [sameSet, Bool.and_eq_true, List.all_eq_true] at hs
+    have hc := hs.2 b hb
+    have hb' : b ∈ bidsOf fg.layer fg.numblocks.length n := by simpa using hc
+    simp only [bidsOf, List.mem_map, List.mem_filter] at hb'
+    obtain ⟨p, ⟨hp, hcond⟩, hpb⟩ := hb'
+    obtain ⟨k, v⟩ := p
+    simp only [Bool.and_eq_true, beq_iff_eq] at hcond
+    have hk : k = ⟨n, b⟩ := by
+      cases k; simp_all
+    subst hk
+    exact get?_isSome_of_mem hp
+  · cases h
+
+/-- whatever key the lookup returns is present in `dsk` (so `dsk[layer_key]` never raises KeyError) -/
+theorem findLayerKey_present {name : String} {kb : List (BlockId × Key)} {inf : Option String}
+    {dsk : Layer V} {b : BlockId} {k : Key}
+    (hinf : ∀ n, inf = some n → has dsk ⟨n, b⟩ = true)
+    (h : findLayerKey name kb inf dsk b = .ok k) : has dsk k = true := by
+  unfold findLayerKey at h
+  rcases inf with _ | n
+  · cases hl : kb.lookup b with
+    | none =>
+      simp only [hl] at h
+      split at h
+      · rename_i hh; cases h; exact hh
+      · cases h
+    | some e =>
+      simp only [hl] at h
+      split at h
+      · rename_i hh; cases h; exact hh
+      · split at h
+        · rename_i hh; cases h; exact hh
+        · cases h
+  · have hn := hinf n rfl
+    cases hl : kb.lookup b with
+    | none =>
+      simp only [hl] at h
+      split at h
+      · rename_i hh; cases h; exact hh
+      · cases h; exact hn
+    | some e =>
+      simp only [hl] at h
+      split at h
+      · rename_i hh; cases h; exact hh
+      · split at h
+        · rename_i hh; cases h; exact hh
+        · cases h; exact hn
+
+
 end Dask.Lemmas.Entry
